@@ -11,6 +11,7 @@ blocks may read their own output, CBlocks may send on_output events to SBlocks (
 -/
 import EdzedModel.Burst
 import EdzedProofs.Burst
+import EdzedModel.Gen.Translated
 
 namespace Edzed.Burst
 open Edzed.Sim
@@ -229,3 +230,12 @@ example : isPotB diamond0 (tbl (pathTable diamond0)) = true
   decide +kernel
 
 end Edzed.Burst
+
+namespace Edzed.TrTie
+
+/-- the model's limit IS the translated right-hand side of `eval_limit = …` in `Circuit._simulate`, with
+    `len(self._blocks)` = the number of ALL blocks -/
+theorem translated_eval_limit_is_model (c : Sim.Circuit) :
+    Gen.Tr.evalLimit Gen.maxEvalsPerBlock c.nblocks = c.limit := rfl
+
+end Edzed.TrTie
